@@ -68,7 +68,8 @@ Record item := mkItem { tag : Z; fid : option Z; whole : bool }.
       per-trajectory value was not (only the as-found add() produces these) *)
 
 Inductive tkind := TOk | TMissingReq.
-Record traj := mkTraj { t_tag : Z; t_fid : option Z; t_sig : Z; t_kind : tkind }.
+Record traj := mkTraj { t_tag : Z; t_fid : option Z; t_sig : Z; t_kind : tkind; t_size : nat }.
+   (* t_size: Trajectory.nbytes, what the LRU cache charges for it *)
 Definition has_id (t : traj) : bool := match t_fid t with Some _ => true | None => false end.
 
 Record ncfile := mkNc {
@@ -159,16 +160,18 @@ Record handle := mkH {
   h_indexable : option bool;
   h_stale : bool;
   h_pending : bool;                 (* _file_creation_pending                                   *)
-  h_msig : option Z                 (* field sets of the prototype item of an in-memory store    *)
+  h_msig : option Z;                (* field sets of the prototype item of an in-memory store    *)
+  h_cap : option nat;               (* file-backed stores: capacity of the LRU cache (None: never reached) *)
+  h_used : nat                      (* in-memory store: sum of the sizes of the trajectories held *)
 }.
 
 Record world := mkW { w_fs : fsys; w_h : option handle }.
 
 Inductive op :=
-  | Create (p : path)
+  | Create (p : path) (cap : option nat)
   | CreateMem (cap : nat)
-  | OpenR (p : path)
-  | OpenA (p : path)
+  | OpenR (p : path) (cap : option nat)
+  | OpenA (p : path) (cap : option nat)
   | Add (t : traj)
   | Get (i : nat)
   | Len
@@ -180,7 +183,7 @@ Inductive op :=
   | Merge (out : path) (ins : list path) (fault : option nat).
 
 Inductive err :=
-  | ENoHandle | EBusy | EExists | EMissing | ENotWritable | EIndex | EFull
+  | ENoHandle | EBusy | EExists | EMissing | ENotWritable | EIndex | EFull | ETooLarge
   | ESchema | EIdUse | ERequired | EReject
   | ENotIndexable | ECorrupt | EKeyBase | EAssert
   | ENotNc | EBadExt | EDupNames | EFieldsets | EIdMix | EMergedAppend | EOpenFail | ENoMeta | EBadMeta
@@ -210,9 +213,9 @@ Definition evict (keep : list nat) (c : list (nat * item)) : list (nat * item) :
   filter (fun e => existsb (Nat.eqb (fst e)) keep) c.
 
 Definition set_cache (h : handle) (c : list (nat * item)) : handle :=
-  mkH (h_src h) (h_mode h) (h_next h) c (h_mem h) (h_snap h) (h_indexable h) (h_stale h) (h_pending h) (h_msig h).
+  mkH (h_src h) (h_mode h) (h_next h) c (h_mem h) (h_snap h) (h_indexable h) (h_stale h) (h_pending h) (h_msig h) (h_cap h) (h_used h).
 Definition set_stale (h : handle) (b : bool) : handle :=
-  mkH (h_src h) (h_mode h) (h_next h) (h_cache h) (h_mem h) (h_snap h) (h_indexable h) b (h_pending h) (h_msig h).
+  mkH (h_src h) (h_mode h) (h_next h) (h_cache h) (h_mem h) (h_snap h) (h_indexable h) b (h_pending h) (h_msig h) (h_cap h) (h_used h).
 
 (* the member files of a merged directory, in the order listed by metadata.json *)
 Fixpoint listed_members (d : mdir) (stores : list (nat * nat)) : option (list ncfile) :=
@@ -345,19 +348,22 @@ Definition insert (fs : fsys) (h : handle) (t : traj) (ok : bool) : fsys * handl
   | SrcMem cap =>
       (fs, mkH (h_src h) (h_mode h) (S idx) (h_cache h) (h_mem h ++ [mkItem (t_tag t) (t_fid t) ok])
                (h_snap h) (Some ix) stale (h_pending h)
-               (match h_msig h with Some s => Some s | None => Some (t_sig t) end))
+               (match h_msig h with Some s => Some s | None => Some (t_sig t) end) (h_cap h) (h_used h + t_size t))
   | SrcFile p =>
       let f0 := if h_pending h then mkNc [] (t_sig t) ix []
                 else match flookup p fs with Some (NFile f) => f | _ => mkNc [] (t_sig t) ix [] end in
       let f1 := mkNc (f_items f0 ++ [item_of t ok]) (f_sig f0) (f_hasidx f0) (f_table f0) in
       (fupd p (NFile f1) fs,
        mkH (h_src h) (h_mode h) (S idx) ((idx, mkItem (t_tag t) (t_fid t) ok) :: h_cache h) (h_mem h)
-           (h_snap h) (Some ix) stale false (h_msig h))
+           (h_snap h) (Some ix) stale false (h_msig h) (h_cap h) (h_used h))
   | SrcMerged _ => (fs, h)
   end.
 
 Definition set_indexable (h : handle) (b : option bool) : handle :=
-  mkH (h_src h) (h_mode h) (h_next h) (h_cache h) (h_mem h) (h_snap h) b (h_stale h) (h_pending h) (h_msig h).
+  mkH (h_src h) (h_mode h) (h_next h) (h_cache h) (h_mem h) (h_snap h) b (h_stale h) (h_pending h) (h_msig h) (h_cap h) (h_used h).
+
+Definition cache_cap (h : handle) : option nat :=
+  match h_src h with SrcMem cap => Some cap | _ => h_cap h end.
 
 Definition add (c : cfg) (fs : fsys) (h : handle) (t : traj) : fsys * handle * out :=
   match h_mode h with
@@ -375,7 +381,10 @@ Definition add (c : cfg) (fs : fsys) (h : handle) (t : traj) : fsys * handle * o
         let id_bad := match h_indexable h with Some b => negb (Bool.eqb b (has_id t)) | None => false end in
         if id_bad then (fs, h, OErr EIdUse)
         else
-          let full := match h_src h with SrcMem cap => cap <=? length (h_mem h) | _ => false end in
+          (* the cache insertion: cachetools refuses a value larger than the whole cache ("value too large"),
+             then an in-memory store refuses to evict *)
+          let toolarge := match cache_cap h with Some cp => cp <? t_size t | None => false end in
+          let full := match h_src h with SrcMem cap => cap <? h_used h + t_size t | _ => false end in
           match t_kind t with
           | TMissingReq =>
               if fix_F6 c then (fs, h, OErr ERequired)
@@ -383,7 +392,8 @@ Definition add (c : cfg) (fs : fsys) (h : handle) (t : traj) : fsys * handle * o
                 (* as found: the indexability decision is already taken, the item is cached and
                    counted, the file is created and partly written, then the check raises *)
                 let h0 := match h_indexable h with Some _ => h | None => set_indexable h (Some (has_id t)) end in
-                if full then (fs, h0, OErr EFull)
+                if toolarge then (fs, h0, OErr ETooLarge)
+                else if full then (fs, h0, OErr EFull)
                 else match h_src h with
                      | SrcMem _ =>
                          (* an in-memory store writes nothing, so nothing ever checks: accepted *)
@@ -391,7 +401,11 @@ Definition add (c : cfg) (fs : fsys) (h : handle) (t : traj) : fsys * handle * o
                      | _ => let '(fs1, h1) := insert fs h0 t false in (fs1, h1, OErr ERequired)
                      end
           | TOk =>
-              if full then
+              if toolarge then
+                (fs, (if fix_F6 c then h
+                      else match h_indexable h with Some _ => h | None => set_indexable h (Some (has_id t)) end),
+                 OErr ETooLarge)
+              else if full then
                 (fs, (if fix_F6 c then h
                       else match h_indexable h with Some _ => h | None => set_indexable h (Some (has_id t)) end),
                  OErr EFull)
@@ -456,15 +470,15 @@ Definition get_flight (c : cfg) (fs : fsys) (h : handle) (id : Z) : fsys * handl
 (* ------------------------------------------------------------------------------------------- *)
 (* opening                                                                                     *)
 (* ------------------------------------------------------------------------------------------- *)
-Definition open_file (c : cfg) (p : path) (f : ncfile) (m : mode) : handle :=
+Definition open_file (c : cfg) (p : path) (f : ncfile) (m : mode) (cap : option nat) : handle :=
   mkH (SrcFile p) m
       (match m with MAppend => length (f_items f) | _ => 0 end)
       [] []
       (if fix_F5 c then None else Some [length (f_items f)])
       (if f_hasidx f then Some true else if fix_C08a c then Some false else None)
-      false false None.
+      false false None cap 0.
 
-Definition open_merged (fs : fsys) (p : path) (d : mdir) : handle + err :=
+Definition open_merged (fs : fsys) (p : path) (d : mdir) (cap : option nat) : handle + err :=
   match pext p with
   | XStore =>
       match d_meta d with
@@ -483,7 +497,7 @@ Definition open_merged (fs : fsys) (p : path) (d : mdir) : handle + err :=
                     inl (mkH (SrcMerged p) MRead 0 [] []
                              (Some (cum (map (fun f => length (f_items f)) l)))
                              (match ix with IxFull _ => Some true | _ => None end)
-                             false false None)
+                             false false None cap 0)
                 end
             end
           end
@@ -652,38 +666,38 @@ Definition merge_run (c : cfg) (fs : fsys) (outp : path) (ins : list path) (faul
 (* ------------------------------------------------------------------------------------------- *)
 (* the step function of the world                                                              *)
 (* ------------------------------------------------------------------------------------------- *)
-Definition new_file_handle (p : path) : handle :=
-  mkH (SrcFile p) MCreate 0 [] [] None None false true None.
+Definition new_file_handle (p : path) (cap : option nat) : handle :=
+  mkH (SrcFile p) MCreate 0 [] [] None None false true None cap 0.
 Definition new_mem_handle (cap : nat) : handle :=
-  mkH (SrcMem cap) MCreate 0 [] [] None None false false None.
+  mkH (SrcMem cap) MCreate 0 [] [] None None false false None None 0.
 
 Definition step (c : cfg) (w : world) (o : op) : world * out :=
   let fs := w_fs w in
   match o, w_h w with
-  | Create p, None =>
+  | Create p cap, None =>
       match flookup p fs with
       | Some _ => (w, OErr EExists)
-      | None => (mkW fs (Some (new_file_handle p)), OUnit)
+      | None => (mkW fs (Some (new_file_handle p cap)), OUnit)
       end
   | CreateMem cap, None => (mkW fs (Some (new_mem_handle cap)), OUnit)
-  | OpenR p, None =>
+  | OpenR p cap, None =>
       match flookup p fs with
       | None => (w, OErr EMissing)
-      | Some (NFile f) => (mkW fs (Some (open_file c p f MRead)), OUnit)
-      | Some (NDir d) => match open_merged fs p d with
+      | Some (NFile f) => (mkW fs (Some (open_file c p f MRead cap)), OUnit)
+      | Some (NDir d) => match open_merged fs p d cap with
                          | inl h => (mkW fs (Some h), OUnit)
                          | inr e => (w, OErr e)
                          end
       end
-  | OpenA p, None =>
+  | OpenA p cap, None =>
       match flookup p fs with
       | None => (w, OErr EMissing)
-      | Some (NFile f) => (mkW fs (Some (open_file c p f MAppend)), OUnit)
+      | Some (NFile f) => (mkW fs (Some (open_file c p f MAppend cap)), OUnit)
       | Some (NDir _) => (w, OErr EMergedAppend)
       end
   | Merge outp ins fault, None =>
       let '(fs1, r) := merge_run c fs outp ins fault in (mkW fs1 None, r)
-  | (Create _ | CreateMem _ | OpenR _ | OpenA _ | Merge _ _ _), Some _ => (w, OErr EBusy)
+  | (Create _ _ | CreateMem _ | OpenR _ _ | OpenA _ _ | Merge _ _ _), Some _ => (w, OErr EBusy)
   | _, None => (w, OErr ENoHandle)
   | Add t, Some h => let '(fs1, h1, r) := add c fs h t in (mkW fs1 (Some h1), r)
   | Get i, Some h =>
@@ -722,8 +736,8 @@ Definition empty_world := mkW [] None.
 (* ------------------------------------------------------------------------------------------- *)
 Definition sitem := (Z * option Z)%type.                    (* payload tag, flight id *)
 Record sstore := mkS { ss_items : list sitem; ss_sig : Z; ss_ident : bool }.
-Inductive sloc := SLMem (items : list sitem) (cap : nat) (def : option (Z * bool)) | SLFile (p : path).
-Record shandle := mkSH { sh_loc : sloc; sh_mode : mode }.
+Inductive sloc := SLMem (items : list sitem) (cap : nat) (def : option (Z * bool)) (used : nat) | SLFile (p : path).
+Record shandle := mkSH { sh_loc : sloc; sh_mode : mode; sh_cap : option nat }.
 Record sworld := mkSW { s_fs : list (path * sstore); s_h : option shandle }.
 
 Definition slookup := @alookup path sstore path_eqb.
@@ -738,13 +752,13 @@ Fixpoint sfind (id : Z) (l : list sitem) : option Z :=
 
 Definition s_items (s : sworld) (h : shandle) : list sitem :=
   match sh_loc h with
-  | SLMem items _ _ => items
+  | SLMem items _ _ _ => items
   | SLFile p => match slookup p (s_fs s) with Some st => ss_items st | None => [] end
   end.
 
 Definition s_def (s : sworld) (h : shandle) : option (Z * bool) :=
   match sh_loc h with
-  | SLMem _ _ def => def
+  | SLMem _ _ def _ => def
   | SLFile p => match slookup p (s_fs s) with Some st => Some (ss_sig st, ss_ident st) | None => None end
   end.
 
@@ -759,24 +773,24 @@ Definition acceptable (def : option (Z * bool)) (t : traj) : bool :=
 
 Definition spec_step (s : sworld) (o : op) : sworld * out :=
   match o, s_h s with
-  | Create p, None =>
+  | Create p cap, None =>
       match slookup p (s_fs s) with
       | Some _ => (s, OErr EExists)
-      | None => (mkSW (s_fs s) (Some (mkSH (SLFile p) MCreate)), OUnit)
+      | None => (mkSW (s_fs s) (Some (mkSH (SLFile p) MCreate cap)), OUnit)
       end
-  | CreateMem cap, None => (mkSW (s_fs s) (Some (mkSH (SLMem [] cap None) MCreate)), OUnit)
-  | OpenR p, None =>
+  | CreateMem cap, None => (mkSW (s_fs s) (Some (mkSH (SLMem [] cap None 0) MCreate None)), OUnit)
+  | OpenR p cap, None =>
       match slookup p (s_fs s) with
       | None => (s, OErr EMissing)
-      | Some _ => (mkSW (s_fs s) (Some (mkSH (SLFile p) MRead)), OUnit)
+      | Some _ => (mkSW (s_fs s) (Some (mkSH (SLFile p) MRead cap)), OUnit)
       end
-  | OpenA p, None =>
+  | OpenA p cap, None =>
       match slookup p (s_fs s) with
       | None => (s, OErr EMissing)
-      | Some _ => (mkSW (s_fs s) (Some (mkSH (SLFile p) MAppend)), OUnit)
+      | Some _ => (mkSW (s_fs s) (Some (mkSH (SLFile p) MAppend cap)), OUnit)
       end
   | Merge _ _ _, None => (s, OUnit)       (* merges are specified separately (C09 / C10) *)
-  | (Create _ | CreateMem _ | OpenR _ | OpenA _ | Merge _ _ _), Some _ => (s, OErr EBusy)
+  | (Create _ _ | CreateMem _ | OpenR _ _ | OpenA _ _ | Merge _ _ _), Some _ => (s, OErr EBusy)
   | _, None => (s, OErr ENoHandle)
   | Add t, Some h =>
       match sh_mode h with
@@ -784,13 +798,17 @@ Definition spec_step (s : sworld) (o : op) : sworld * out :=
       | m =>
           if acceptable (s_def s h) t then
             match sh_loc h with
-            | SLMem items cap def =>
-                if cap <=? length items then (s, OErr EFull)
+            | SLMem items cap def used =>
+                (* a trajectory larger than the whole store, or one that does not fit any more, is refused *)
+                if cap <? t_size t then (s, OErr ETooLarge)
+                else if cap <? used + t_size t then (s, OErr EFull)
                 else (mkSW (s_fs s)
                            (Some (mkSH (SLMem (items ++ [(t_tag t, t_fid t)]) cap
-                                              (match def with Some d => Some d | None => Some (t_sig t, has_id t) end)) m)),
+                                              (match def with Some d => Some d | None => Some (t_sig t, has_id t) end)
+                                              (used + t_size t)) m (sh_cap h))),
                       OIdx (length items))
             | SLFile p =>
+                if match sh_cap h with Some cp => cp <? t_size t | None => false end then (s, OErr ETooLarge) else
                 let st := match slookup p (s_fs s) with
                           | Some st => st
                           | None => mkS [] (t_sig t) (has_id t)
